@@ -64,6 +64,7 @@ func (p *uPacketPacker) PackCoalescedPacket(onlyAck bool, maxSize protocol.ByteC
 		return nil, err
 	}
 	var size protocol.ByteCount
+	var specInitial bool // [UQUIC] the Initial packet of this datagram is built from the spec
 	if initialSealer != nil && !onlyAck {
 		// [UQUIC] A QUICFlightFrameBuilder lays out every Initial datagram of the flight
 		// in one shot, from the complete CRYPTO stream, before the first one is
@@ -111,12 +112,16 @@ func (p *uPacketPacker) PackCoalescedPacket(onlyAck bool, maxSize protocol.ByteC
 		)
 		if initialPayload.length > 0 {
 			size += p.longHeaderPacketLength(initialHdr, initialPayload, v) + protocol.ByteCount(initialSealer.Overhead())
+			// [UQUIC] An Initial packet that carries frames is built from the spec (appendInitialPacket):
+			// it is re-framed and padded after the size above was computed, and the datagram is
+			// zero-padded behind it. Nothing can be coalesced with it.
+			specInitial = !onlyAck && len(initialPayload.frames) > 0
 		}
 	}
 
 	// Add a Handshake packet.
 	var handshakeSealer sealer
-	if (onlyAck && size == 0) || (!onlyAck && size < maxSize-protocol.MinCoalescedPacketSize) {
+	if !specInitial && ((onlyAck && size == 0) || (!onlyAck && size < maxSize-protocol.MinCoalescedPacketSize)) {
 		var err error
 		handshakeSealer, err = p.cryptoSetup.GetHandshakeSealer()
 		if err != nil && err != handshake.ErrKeysDropped && err != handshake.ErrKeysNotYetAvailable {
@@ -143,7 +148,7 @@ func (p *uPacketPacker) PackCoalescedPacket(onlyAck bool, maxSize protocol.ByteC
 	var oneRTTSealer handshake.ShortHeaderSealer
 	var connID protocol.ConnectionID
 	var kp protocol.KeyPhaseBit
-	if (onlyAck && size == 0) || (!onlyAck && size < maxSize-protocol.MinCoalescedPacketSize) {
+	if !specInitial && ((onlyAck && size == 0) || (!onlyAck && size < maxSize-protocol.MinCoalescedPacketSize)) {
 		var err error
 		oneRTTSealer, err = p.cryptoSetup.Get1RTTSealer()
 		if err != nil && err != handshake.ErrKeysDropped && err != handshake.ErrKeysNotYetAvailable {
@@ -183,7 +188,7 @@ func (p *uPacketPacker) PackCoalescedPacket(onlyAck bool, maxSize protocol.ByteC
 		longHdrPackets: make([]*longHeaderPacket, 0, 3),
 	}
 	if initialPayload.length > 0 {
-		if onlyAck || len(initialPayload.frames) == 0 {
+		if !specInitial {
 			// TODO: uQUIC should send Initial Packet ACK if requested.
 			// However, it should be otherwise configurable whether to request
 			// to send Initial Packet ACK or not. See quic-go#4007
@@ -200,6 +205,7 @@ func (p *uPacketPacker) PackCoalescedPacket(onlyAck bool, maxSize protocol.ByteC
 			}
 
 			packet.longHdrPackets = append(packet.longHdrPackets, cont)
+			return packet, nil // the datagram is complete (and padded)
 		}
 	}
 	if handshakePayload.length > 0 {
